@@ -14,10 +14,10 @@ def main(argv):
                               'TLC decides the stream-level laws of Lift.tla on the logged tables: out = lift(f, in) including the position of the Error, string/byte sibling agreement, '
                               'decode(encode(x)) = x, sorted permutation (stable where the name says so), concatenation of reader chunks = input, sinks (count = what the writer accepted, the Error of the writer incl. the one csv.Writer reports after Flush, nothing written after a refusal), inputs and delivered values unchanged at the end, '
                               'grammar and release of the source.')
-    rep.cov['rule'] = ('45 plugin scenarios (strconv 12, regexp 10, strings/bytes siblings 6 pairs, base64 2, JSON 3, gob 3, time 6, template 2, sort 3 variants, stdio readers 2 (the byte reader over readers that end with io.EOF or an error of their own, alone or together with their last bytes), CSV reader incl. damaged input, CSV writer and io.Writer sink over writers that refuse from their k-th Write on) each run on seeded and '
+    rep.cov['rule'] = ('55 plugin scenarios (strconv 16, regexp 14, strings/bytes siblings 7 pairs incl. Words, time.ParseInLocation over tz locations, base64 2, JSON 3, gob 3, time 6, template 2, sort 3 variants, stdio readers 2 (the byte reader over readers that end with io.EOF or an error of their own, alone or together with their last bytes), CSV reader incl. damaged input, CSV writer and io.Writer sink over writers that refuse from their k-th Write on) each run on seeded and '
                        'boundary inputs (empty, huge, malformed, multi-byte and invalid UTF-8 text, equal keys with distinguishable tags, sizes crossing the 1024-byte reader buffer and the 12-element '
                        'sort switch-over, all documented parameter values); every run is distinct')
-    rep.assumptions += ['NewStdWriter (os.Stdout) and the remaining regexp / strconv variants are not registered']
+    rep.assumptions += ['NewStdWriter, NewStdReader(Line), NewPrompt (process stdin / stdout) and the Random helpers are not registered']
     return rep.finish()
 
 
